@@ -142,6 +142,76 @@ Proof.
   unfold on_store at 1. destruct (pstore p =? st); [reflexivity|exact IH].
 Qed.
 
+(* ---------- counting through equal role lookups ---------- *)
+Lemma filter_not_on_store st : forall r, ~ In st (map pstore r) -> filter (fun q => negb (on_store st q)) r = r.
+Proof.
+  induction r as [|y r IH]; intros Hn; cbn [filter]; [reflexivity|].
+  destruct (on_store st y) eqn:E2.
+  - apply on_store_true in E2. exfalso. apply Hn. cbn. left. exact E2.
+  - cbn [negb]. f_equal. apply IH. intros C. apply Hn. right. exact C.
+Qed.
+
+Lemma countb_remove_one (g : peer -> bool) ps st q :
+  ND ps -> lk ps st = Some q -> countb g ps = countb g (remove_store ps st) + b2z (g q).
+Proof.
+  unfold ND, lk, remove_store, countb. induction ps as [|p r IH]; cbn [map find filter]; intros Hnd Hq; [discriminate|].
+  inversion Hnd as [|? ? Hn Hd]; subst. destruct (on_store st p) eqn:E; cbn [negb].
+  - inversion Hq; subst q. apply on_store_true in E. rewrite E in Hn.
+    rewrite (filter_not_on_store st r Hn).
+    destruct (g p); cbn [length b2z]; lia.
+  - cbn [filter]. specialize (IH Hd Hq). destruct (g p); cbn [length]; lia.
+Qed.
+
+Lemma countb_same_lookup (f : role -> bool) : forall l1 l2,
+  ND l1 -> ND l2 -> (forall st, option_map prole (lk l1 st) = option_map prole (lk l2 st)) ->
+  countb (fun p => f (prole p)) l1 = countb (fun p => f (prole p)) l2.
+Proof.
+  induction l1 as [|p r1 IH]; intros l2 H1 H2 Hl.
+  - destruct l2 as [|q r2]; [reflexivity|]. specialize (Hl (pstore q)). unfold lk in Hl. cbn in Hl.
+    unfold on_store in Hl. rewrite Z.eqb_refl in Hl. discriminate.
+  - assert (Hp : lk (p :: r1) (pstore p) = Some p) by (unfold lk; cbn; unfold on_store; rewrite Z.eqb_refl; reflexivity).
+    pose proof (Hl (pstore p)) as Hq. rewrite Hp in Hq. cbn [option_map] in Hq.
+    destruct (lk l2 (pstore p)) as [q|] eqn:Eq; [|discriminate]. cbn [option_map] in Hq. inversion Hq as [Hrole].
+    rewrite (countb_remove_one _ l2 (pstore p) q H2 Eq).
+    unfold countb at 1. cbn [filter]. rewrite Hrole.
+    unfold ND in H1. cbn [map] in H1. inversion H1 as [|? ? Hn Hd]; subst.
+    assert (IH' : countb (fun p0 => f (prole p0)) r1 = countb (fun p0 => f (prole p0)) (remove_store l2 (pstore p))).
+    { apply IH; [exact Hd|apply ND_filter; exact H2|]. intros st. rewrite lk_remove_store by exact H2.
+      specialize (Hl st). unfold lk at 1 in Hl. cbn [find] in Hl. unfold on_store at 1 in Hl.
+      destruct (st =? pstore p) eqn:E.
+      - apply Z.eqb_eq in E. subst st. destruct (lk r1 (pstore p)) as [x|] eqn:Ex; [|reflexivity].
+        apply lk_Some in Ex as [Ex1 Ex2]. exfalso. apply Hn. rewrite <- Ex2. apply in_map. exact Ex1.
+      - rewrite (Z.eqb_sym (pstore p) st), E in Hl. exact Hl. }
+    unfold countb in IH' |- *. destruct (f (prole q)); cbn [length b2z]; lia.
+Qed.
+
+Lemma same_placement_lookup l1 l2 :
+  ND l1 -> ND l2 -> (forall st, option_map prole (lk l1 st) = option_map prole (lk l2 st)) ->
+  same_placement (placement l1) (placement l2) = true.
+Proof.
+  intros H1 H2 Hl.
+  assert (G : forall a b, ND a -> (forall st, option_map prole (lk a st) = option_map prole (lk b st)) ->
+                          forallb (fun x => existsb (pl_eqb x) (placement b)) (placement a) = true).
+  { intros a b Ha Hab. apply forallb_forall. intros x Hx. unfold placement in Hx. apply in_map_iff in Hx as (p & <- & Hp).
+    pose proof (Hab (pstore p)) as E. rewrite (lk_In _ _ Ha Hp) in E. cbn [option_map] in E.
+    destruct (lk b (pstore p)) as [q|] eqn:Eq; [|discriminate]. cbn [option_map] in E. inversion E as [Er].
+    apply existsb_exists. exists (pstore q, prole q). split; [unfold placement; apply in_map_iff; exists q; split; [reflexivity|apply (lk_Some _ _ _ Eq)]|].
+    unfold pl_eqb; cbn [fst snd]. rewrite (proj2 (lk_Some _ _ _ Eq)), Z.eqb_refl, Er. destruct (prole q); reflexivity. }
+  unfold same_placement. rewrite (G l1 l2 H1 Hl). rewrite (G l2 l1 H2 (fun st => eq_sym (Hl st))). reflexivity.
+Qed.
+
+Lemma countb_remove_all (g : peer -> bool) : forall R ps,
+  ND ps -> (forall p, In p R -> forall q, lk ps (pstore p) = Some q -> g q = false) ->
+  countb g (remove_all ps R) = countb g ps.
+Proof.
+  unfold remove_all. induction R as [|p R IH]; intros ps Hnd H; cbn [fold_left]; [reflexivity|].
+  rewrite IH.
+  - apply countb_remove_false. intros x Hx Hs. apply (H p (or_introl eq_refl)). rewrite <- Hs. apply lk_In; assumption.
+  - apply ND_filter. exact Hnd.
+  - intros q Hq x Hxl. rewrite lk_remove_store in Hxl by exact Hnd. destruct (pstore q =? pstore p); [discriminate|].
+    apply (H q (or_intror Hq) x Hxl).
+Qed.
+
 Section Derived.
   Variables (ps0 : list peer) (target : pmap) (alloc : list (Z * Z)).
   Hypotheses (Hnd0 : ND ps0) (Hnj0 : NJ ps0) (Hst : PSorted target) (Hnjt : NJ target).
@@ -256,7 +326,7 @@ Section Derived.
   Lemma ps1_nd : ND ps1.
   Proof.
     unfold ps1. apply ND_app; [exact Hnd0|apply HA_nd|].
-    intros q Hq. apply in_map_iff in Hq as (a & <- & Ha). apply HA_fresh. exact Ha.
+    intros q Hq. apply in_map_iff in Hq as (a & <- & Ha). change (pstore (learner_of a)) with (pstore a). apply HA_fresh. exact Ha.
   Qed.
 
   Lemma lk_ps4 st : lk ps4 st = option_map (fun p => leave_role (enter_role P D p)) (lk ps1 st).
@@ -305,10 +375,11 @@ Section Derived.
       rewrite pro1_get, Ea, dem3_get, Er, Pget, Dget, Eo, Et.
       pose proof (Hnjt n (proj1 (lk_Some _ _ _ Et))) as Hn.
       destruct (is_learner p) eqn:Elp; destruct (is_learner n) eqn:Eln; cbn [andb negb is_some].
-      + apply is_learner_role in Elp, Eln. unfold leave_role. rewrite Elp, Eln. reflexivity.
-      + unfold leave_role; cbn. destruct Hn as [E|E]; [rewrite E; reflexivity|apply is_learner_role in E; congruence].
-      + unfold leave_role; cbn. apply is_learner_role in Eln. rewrite Eln. reflexivity.
-      + unfold leave_role. rewrite (NJ_voter ps0 p Hnj0 (proj1 (lk_Some _ _ _ Eo)) Elp).
+      + apply is_learner_role in Elp, Eln. destruct p as [sp ip rp]; cbn in Elp; subst rp. cbn. rewrite Eln. reflexivity.
+      + cbn. destruct Hn as [E|E]; [rewrite E; reflexivity|apply is_learner_role in E; congruence].
+      + cbn. apply is_learner_role in Eln. rewrite Eln. reflexivity.
+      + pose proof (NJ_voter ps0 p Hnj0 (proj1 (lk_Some _ _ _ Eo)) Elp) as Ev.
+        destruct p as [sp ip rp]; cbn in Ev; subst rp. cbn.
         destruct Hn as [E|E]; [rewrite E; reflexivity|apply is_learner_role in E; congruence].
     - reflexivity.
     - (* new store *)
@@ -319,5 +390,70 @@ Section Derived.
       pose proof (Hnjt n (proj1 (lk_Some _ _ _ Et))) as Hn.
       unfold is_learner at 1. cbn [prole]. destruct Hn as [E|E]; rewrite E; cbn; reflexivity.
     - assert (Ea : pm_get add st = None) by (rewrite Aget, Et; reflexivity). rewrite Ea. reflexivity.
+  Qed.
+
+  (* ---- where the leader may be ---- *)
+  Definition tvoter (st : Z) : bool := match pm_get target st with Some p => negb (is_learner p) | None => false end.
+  Definition ovoter (st : Z) : bool := match lk ps0 st with Some p => negb (is_learner p) | None => false end.
+
+  Lemma D_not_tvoter st : In st (map fst D) -> tvoter st = false.
+  Proof.
+    intros Hin. unfold D in Hin. rewrite pairs_of_fst in Hin. apply in_map_iff in Hin as (p & Hs & Hp).
+    apply (pm_In_get _ _ dem3_nd) in Hp. rewrite Hs in Hp. rewrite dem3_get in Hp. unfold tvoter.
+    destruct (pm_get rem st) as [q|] eqn:Er.
+    - rewrite Rget in Er. destruct (lk ps0 st); [|discriminate]. destruct (pm_get target st); [discriminate|reflexivity].
+    - rewrite Dget in Hp. destruct (lk ps0 st) as [q|]; [|discriminate]. destruct (pm_get target st) as [n0|]; [|reflexivity].
+      destruct (is_learner n0); [reflexivity|]. rewrite andb_false_r in Hp. discriminate.
+  Qed.
+
+  Lemma P_when st : ovoter st = false -> tvoter st = true -> In st (map fst P).
+  Proof.
+    unfold ovoter, tvoter. intros Ho Ht. unfold P. rewrite pairs_of_fst.
+    destruct (pm_get target st) as [n|] eqn:Et; [|discriminate]. apply negb_true_iff in Ht.
+    assert (E : exists p, pm_get pro1 st = Some p).
+    { rewrite pro1_get, Aget, Et. destruct (lk ps0 st) as [q|] eqn:Eq; cbn [is_some].
+      - rewrite Pget, Eq, Et. apply negb_false_iff in Ho. rewrite Ho, Ht. cbn. eauto.
+      - unfold is_learner at 1. cbn [prole]. fold (is_learner n). rewrite Ht. eauto. }
+    destruct E as (p & Hp). apply in_map_iff. exists p. split; [apply (lk_store _ _ _ Hp)|apply (lk_Some _ _ _ Hp)].
+  Qed.
+
+  Lemma ps4_at_voter st : tvoter st = true -> exists q, lk ps4 st = Some q /\ prole q = Voter.
+  Proof.
+    intros Ht. pose proof (final_lookup st) as F. unfold tvoter in Ht.
+    destruct (pm_get target st) as [n|] eqn:Et; [|discriminate]. cbn [option_map] in F.
+    unfold psF in F. rewrite lk_remove_all in F by apply ps4_nd.
+    destruct (existsb (fun p => pstore p =? st) rem); [discriminate|].
+    destruct (lk ps4 st) as [q|]; [|discriminate]. cbn [option_map] in F. inversion F as [Fr].
+    exists q. split; [reflexivity|]. rewrite Fr. apply negb_true_iff in Ht.
+    destruct (Hnjt n (proj1 (lk_Some _ _ _ Et))) as [E|E]; [exact E|apply is_learner_role in E; congruence].
+  Qed.
+
+  Lemma ps1_at_ovoter st : ovoter st = true -> exists q, lk ps1 st = Some q /\ prole q = Voter.
+  Proof.
+    unfold ovoter. intros Ho. destruct (lk ps0 st) as [q|] eqn:Eq; [|discriminate].
+    exists q. split; [rewrite lk_ps1, Eq; reflexivity|]. apply negb_true_iff in Ho.
+    apply (NJ_voter ps0 q Hnj0 (proj1 (lk_Some _ _ _ Eq)) Ho).
+  Qed.
+
+  Lemma rem_not_target p : In p rem -> pm_get target (pstore p) = None.
+  Proof. intros H. apply (HR_char p H). Qed.
+
+  Lemma psF_nd : ND psF.
+  Proof.
+    unfold psF, remove_all. generalize ps4_nd. generalize ps4. induction rem as [|p R IH]; intros l Hl; cbn [fold_left]; [exact Hl|].
+    apply IH. apply ND_filter. exact Hl.
+  Qed.
+
+  Lemma voters_new_enter : voters_new (map (enter_role P D) ps1) = voters_new target.
+  Proof.
+    transitivity (voters_new ps4).
+    { unfold ps4, post_joint, voters_new. rewrite (countb_map new_voter leave_role). apply countb_ext. intros q _.
+      unfold leave_role, new_voter. destruct (prole q) eqn:E; cbn [prole]; rewrite ?E; reflexivity. }
+    transitivity (voters_new psF).
+    { unfold psF, voters_new. symmetry. apply countb_remove_all; [apply ps4_nd|].
+      intros p Hp q Hq. destruct (HR_char p Hp) as (E & _). rewrite E in Hq. inversion Hq. reflexivity. }
+    unfold voters_new.
+    change new_voter with (fun p => (fun ro => match ro with Voter | Incoming => true | _ => false end) (prole p)).
+    apply countb_same_lookup; [apply psF_nd|apply target_nd; exact Hst|]. intros st. apply final_lookup.
   Qed.
 End Derived.
